@@ -13,6 +13,9 @@
     * per node: parallel arrays, capacity `≤ order`, minimum occupancy
       (`order/2`; root leaf 0; inner root 2; the node a running Delete is about
       to rebalance — the *hole* — `order/2 − 1`)                              (`OccOk`)
+    * the order is even and at least 2; it is at least 4 whenever there is a hole
+      (a Delete needs `4 ≤ order`; without Delete order 2 is fine: a full node of
+      2 entries splits into halves of `order/2 = 1`)                 (`order2`, `big`, `even`)
     * the leaf chain: each leaf's `next` is the following leaf, the last none  (`ChainOk`)
     * per thread: the identities its continuation carries are where it thinks
       they are, stated ONLY in terms of the own fields of nodes the thread holds
@@ -88,8 +91,26 @@ structure TreeOk (hole : Option Nat) (t : Tree K V) : Prop where
   ids   : IdsOk t
   occ   : OccOk hole t
   chain : ChainOk t
-  order4 : 4 ≤ t.order
+  order2 : 2 ≤ t.order
+  /-- a hole exists only while a Delete runs, and a Delete needs `4 ≤ order` -/
+  big   : hole ≠ none → 4 ≤ t.order
   even  : t.order % 2 = 0
+
+theorem TreeOk.half_pos {hole : Option Nat} {t : Tree K V} (h : TreeOk hole t) : 1 ≤ t.order / 2 := by
+  have := h.order2; omega
+
+/-- every node other than the root holds at least one entry (`order/2 ≥ 1`; the hole's
+    `order/2 − 1 ≥ 1` because a hole exists only at orders `≥ 4`) -/
+theorem TreeOk.min_pos {hole : Option Nat} {t : Tree K V} (h : TreeOk hole t) {id : Nat}
+    (hne : id ≠ t.rootId) (ht : Nat) : 1 ≤ minOf t.order t.rootId hole id ht := by
+  unfold minOf
+  rw [if_neg hne]
+  have h2 := h.order2
+  split
+  · rename_i hh
+    have := h.big (by rw [hh]; simp)
+    omega
+  · omega
 
 /-! ### per-thread invariant -/
 
